@@ -218,6 +218,13 @@ def _traverse_exhaustive(xcore, ycore, path_cost, bab, fol):
     if xcore == fol.false:
         assert ycore == fol.false
         assert core_lb == 0, core_lb
+        # a leaf is a candidate only if it is not more expensive
+        # than the best cover known so far (otherwise the covers
+        # returned by a node need not be minimal for that node)
+        if branch_lb > bab.upper_bound:
+            log.info('terminal case, worse than upper bound\n'
+                     '==== traverse ====\n')
+            return set()
         bab.upper_bound = branch_lb
         log.info('terminal case (empty cyclic core)\n'
                  '==== traverse ====\n')
